@@ -513,6 +513,11 @@ def run_scriptplan(tjp_file: str, output_dir: Optional[str] = None) -> tuple[boo
                 error_output = stderr_capture.getvalue()
                 return (False, error_output or "Report generation failed")
 
+    except SystemExit as e:
+        # The message handler ends the process on errors in the project (for example an
+        # invalid report file name). For programmatic use that is a failed run, not an exit.
+        error_output = stderr_capture.getvalue()
+        return (False, error_output or f"Report generation failed (exit status {e.code})")
     except Exception as e:
         error_output = stderr_capture.getvalue()
         return (False, error_output or str(e))
